@@ -170,9 +170,14 @@ def coq_makefile():
             raise RuntimeError(out)
 
 
-def coq_make(targets, timeout=1800):
-    """full .vo build of the given targets (never -vos).  returns (ok, output)"""
+def coq_make(targets, timeout=1800, remove=()):
+    """full .vo build of the given targets (never -vos).  returns (ok, output).  remove: files deleted first, under the same lock hold"""
     with Lock('coq'):
+        for f in remove:
+            try:
+                os.remove(f)
+            except OSError:
+                pass
         import gen_tables
         gen_tables.main()              # regenerate coq/Gen/*.v from the current /repo/src (write-if-changed)
         import cxx2coq
@@ -227,12 +232,9 @@ def check_proofs(pid, clean=False):
                     os.remove(pf[:-2] + ext)
                 except OSError:
                     pass
-    # always re-run the property file itself so that its Print Assumptions output is captured from this run
-    try:
-        os.remove(pf[:-2] + '.vo')
-    except OSError:
-        pass
-    ok, out = coq_make([target])
+    # always re-run the property file itself so that its Print Assumptions output is captured from this run (removed under the same
+    # lock hold as the build, so that concurrent checks of one property cannot see each other's fresh .vo)
+    ok, out = coq_make([target], remove=[pf[:-2] + '.vo'])
     res = {'file': os.path.relpath(pf, VERIF), 'theorems': names, 'built': ok, 'output_tail': out[-3000:], 'axioms': {}, 'bad_axioms': []}
     if ok:
         # parse "Print Assumptions" blocks:  either "Closed under the global context" or "Axioms:\n name : type ..."
@@ -452,7 +454,7 @@ def correspond(run, family, harness, flagset, model_fam, cases, oracle, nontrivi
     oracle_fail = []
     keys = []
     for i, c in enumerate(cases):
-        ci = canon(iout[i])
+        ci = canon(iout[i], cases[i]) if canon.__code__.co_argcount == 2 else canon(iout[i])
         if mout[i] != ci:
             disagreements.append(i)
         what = oracle(c, iout[i])
